@@ -570,13 +570,15 @@ def rule_part(ctx: Ctx) -> RuleReport:
         whiles = [w for w in walk_own(f.node) if isinstance(w, ast.While) and isinstance(w.test, ast.Name)]
         cur = whiles[0].test.id if whiles else None
         nxt = [n for n in walk_own(f.node) if isinstance(n, ast.Assign) and cur and norm(n.targets[0]) == cur and "'@odata.nextLink'" in norm(n.value)]
-        if nxt and "v0 = v1.get('value', [])" in txt and whiles:
+        loops = [n for n in walk_own(f.node) if isinstance(n, ast.For)]
+        items_vars = {n.targets[0].id for n in walk_own(f.node) if isinstance(n, ast.Assign) and len(n.targets) == 1 and isinstance(n.targets[0], ast.Name) and ".get('value', [])" in norm(n.value)}
+        # the page's items: bound to a local first, or iterated where they are read
+        direct = bool(loops) and whiles and any(x is loops[0] for x in ast.walk(whiles[0])) and norm(loops[0].iter).endswith(".get('value', [])")
+        if nxt and ("v0 = v1.get('value', [])" in txt or direct) and whiles:
             rep.ok({f.qual: "iterates value[] of every page until @odata.nextLink is absent"})
         else:
             rep.fail(Finding("C18-PART", CL, f.qual, "pagination", "the pagination loop no longer follows @odata.nextLink over value[] of every page", line=f.node.lineno))
-        loops = [n for n in walk_own(f.node) if isinstance(n, ast.For)]
-        items_vars = {n.targets[0].id for n in walk_own(f.node) if isinstance(n, ast.Assign) and len(n.targets) == 1 and isinstance(n.targets[0], ast.Name) and ".get('value', [])" in norm(n.value)}
-        if loops and norm(loops[0].iter) in items_vars:
+        if loops and (norm(loops[0].iter) in items_vars or direct):
             rep.ok()
         else:
             rep.fail(Finding("C18-PART", CL, f.qual, norm(loops[0].iter) if loops else "?", "not every item of a page is looked at", line=f.node.lineno))
